@@ -7,6 +7,7 @@ use aranya_device_ffi::FfiDevice as DeviceFfi;
 use aranya_envelope_ffi::Ffi as EnvelopeFfi;
 use aranya_idam_ffi::Ffi as IdamFfi;
 use aranya_perspective_ffi::FfiPerspective as PerspectiveFfi;
+use aranya_policy_module::TypeKind;
 use aranya_policy_vm::{Identifier, Machine, Value, ffi::{FfiModule as _, ModuleSchema}, ident};
 use aranya_runtime::{
     Address, CmdId, FfiCallable, GraphId, MaxCut, MemSpill, Prior, Priority, StorageError, StorageProvider as _, VmAction,
@@ -27,6 +28,10 @@ use envelope
 
 fact Stuff[a int]=>{x int}
 effect StuffHappened { a int, x int }
+effect Noted { k int, s string }
+
+enum Color { Red, Green, Blue }
+struct Inner { n int, t string }
 
 fact DeviceSignKey[device_id id]=>{key_id id, key bytes}
 fact DeviceIdentKey[device_id id]=>{key bytes}
@@ -191,6 +196,24 @@ action two(k int, v int) {
     publish Put { k: k, v: v }
     publish Set2 { k: k, v: v }
 }
+
+action note(k int, s string, o option[int], c enum Color, b bytes, n int, t string) {
+    publish Note { k: k, s: s, o: o, c: c, b: b, i: Inner { n: n, t: t } }
+}
+
+// A payload with every kind of field: ints of any size, text / bytes (length prefixes of 1-2 bytes), option,
+// enum, nested struct.
+command Note {
+    attributes { priority: 1 }
+    fields { k int, s string, o option[int], c enum Color, b bytes, i struct Inner }
+    seal { return seal_basic_command(payload) }
+    open { return open_basic_command(payload, envelope) }
+    policy {
+        finish {
+            emit Noted { k: this.k, s: this.s }
+        }
+    }
+}
 "#;
 
 pub const FACT_NAMES: &[&str] = &["Stuff", "DeviceSignKey", "DeviceIdentKey"];
@@ -199,10 +222,12 @@ pub const FACT_NAMES: &[&str] = &["Stuff", "DeviceSignKey", "DeviceIdentKey"];
 pub struct Step {
     /// false = device A (owner), true = device C
     pub dev_c: bool,
-    /// 0 put, 1 set2, 2 two (two commands in one action)
+    /// 0 put, 1 set2, 2 two (two commands in one action), 3 note (field values derived from k, v, extra)
     pub cmd: u8,
     pub k: u8,
     pub v: i8,
+    #[serde(default)]
+    pub extra: u16,
     /// exchange all commands between A and C after this step
     pub sync_after: bool,
 }
@@ -221,7 +246,7 @@ pub struct Case {
     /// parameters of the mutations; command i uses params[(i + kind) % len] for mutation kind `kind`
     pub params: Vec<MutParam>,
     /// one mutation of a field the statement does not name, tried on a second replica:
-    /// (which command, which of the 4 uncovered kinds)
+    /// (which command, which of the 5 uncovered kinds)
     pub probe: (u16, u8),
 }
 
@@ -229,12 +254,12 @@ fn case(max_steps: usize) -> impl Strategy<Value = Case> {
     (
         any::<u32>(),
         prop::collection::vec(
-            (any::<bool>(), prop_oneof![3 => Just(0u8), 2 => Just(1u8), 1 => Just(2u8)], 0u8..3, -3i8..4, prop_oneof![2 => Just(false), 1 => Just(true)])
-                .prop_map(|(dev_c, cmd, k, v, sync_after)| Step { dev_c, cmd, k, v, sync_after }),
+            (any::<bool>(), prop_oneof![3 => Just(0u8), 2 => Just(1u8), 1 => Just(2u8), 2 => Just(3u8)], 0u8..3, -3i8..4, any::<u16>(), prop_oneof![2 => Just(false), 1 => Just(true)])
+                .prop_map(|(dev_c, cmd, k, v, extra, sync_after)| Step { dev_c, cmd, k, v, extra, sync_after }),
             1..=max_steps,
         ),
         prop::collection::vec((any::<u16>(), 0u8..8, any::<u16>()).prop_map(|(pos, bit, pick)| MutParam { pos, bit, pick }), 7),
-        (any::<u16>(), 0u8..4),
+        (any::<u16>(), 0u8..5),
     )
         .prop_map(|(seed, steps, params, probe)| Case { seed, steps, params, probe })
 }
@@ -285,6 +310,27 @@ pub fn device(m: &Machine, seed: u64) -> Result<Device, String> {
     })
 }
 
+/// Field values of a Note: ints with 1..10 byte encodings, text / bytes up to 299 bytes, both option states.
+fn note_args(s: &Step) -> Vec<Value> {
+    let e = i64::from(s.extra);
+    let k = match s.extra % 4 {
+        0 => i64::from(s.v),
+        1 => e << 20,
+        2 => i64::MIN + e,
+        _ => -e * 1_000_000_007,
+    };
+    let text = |c: &str, n: usize| Value::String(c.repeat(n).parse().expect("text without NUL"));
+    vec![
+        Value::Int(k),
+        text("s", usize::from(s.extra) % 200),
+        if s.extra & 1 == 1 { Value::Option(Some(Box::new(Value::Int(e * 3)))) } else { Value::Option(None) },
+        Value::Enum(ident!("Color"), e % 3),
+        Value::Bytes(vec![s.k; usize::from(s.extra / 7) % 300]),
+        Value::Int(e - 100),
+        text("\u{e9}", usize::from(s.k)),
+    ]
+}
+
 fn act(name: Identifier, args: Vec<Value>) -> VmAction<'static> {
     VmAction { name, args: Cow::Owned(args) }
 }
@@ -310,10 +356,12 @@ pub enum MutKind {
     Priority,
     PolicyField,
     TrailingByte,
+    /// a length prefix of the wire encoding (command name / payload / signature) padded; the signed content is untouched
+    WireLenPrefix,
 }
 
 pub const COVERED: [MutKind; 7] = [MutKind::PayloadByte, MutKind::Name, MutKind::Author, MutKind::SigByte, MutKind::Id, MutKind::ParentId, MutKind::RawByte];
-pub const UNCOVERED: [MutKind; 4] = [MutKind::ParentMaxCut, MutKind::Priority, MutKind::PolicyField, MutKind::TrailingByte];
+pub const UNCOVERED: [MutKind; 5] = [MutKind::ParentMaxCut, MutKind::Priority, MutKind::PolicyField, MutKind::TrailingByte, MutKind::WireLenPrefix];
 
 fn reencode(author: DeviceId, kind: &Identifier, fields: &[u8], sig: &[u8]) -> Vec<u8> {
     postcard::to_allocvec(&VmProtocolData {
@@ -357,7 +405,7 @@ pub fn mutate(orig: &OwnedCmd, kind: MutKind, p: &MutParam, others: &[Address], 
             what = "payload";
         }
         MutKind::Name => {
-            let names = ["Put", "Set2", "AddDeviceKeys", "Init", "Nope"];
+            let names = ["Put", "Set2", "AddDeviceKeys", "Init", "Nope", "Note"];
             let cand: Vec<&str> = names.iter().copied().filter(|n| *n != name.as_str()).collect();
             let n: Identifier = cand[vcommon::idx(p.pick, cand.len())].parse().ok()?;
             c.bytes = reencode(author, &n, &fields, &sig);
@@ -440,11 +488,167 @@ pub fn mutate(orig: &OwnedCmd, kind: MutKind, p: &MutParam, others: &[Address], 
             c.bytes.push(p.bit);
             what = "trailing byte";
         }
+        MutKind::WireLenPrefix => {
+            let spans = wire_len_prefixes(&orig.bytes)?;
+            let (start, len) = spans[vcommon::idx(p.pick, spans.len())];
+            let extra = 1 + usize::from(p.bit) % 3;
+            c.bytes = pad_varint(&orig.bytes, start, len, extra)?;
+            // it must still decode to the same four fields
+            let d2: VmProtocolData<'_> = postcard::from_bytes(&c.bytes).ok()?;
+            if d2.author_id != author || d2.kind != name || d2.serialized_fields != fields || d2.signature != sig {
+                return None;
+            }
+            what = "wire length prefix";
+        }
     }
     if c == *orig {
         return None;
     }
     Some((c, what))
+}
+
+
+// ---------------------------------------------------------------------------------------------
+// byte-different encodings of the same values (written from the postcard wire specification, independent of the
+// decoders under test): LEB128 varints may carry redundant continuation bytes (`02` == `82 00` == `82 80 00`)
+
+/// Length of the LEB128 varint starting at `at` (at most 10 bytes), None when it runs off the input.
+fn varint_len(b: &[u8], at: usize) -> Option<usize> {
+    for n in 1..=10 {
+        if *b.get(at + n - 1)? & 0x80 == 0 {
+            return Some(n);
+        }
+    }
+    None
+}
+
+fn varint_val(b: &[u8], at: usize, len: usize) -> u64 {
+    b[at..at + len].iter().enumerate().fold(0u64, |v, (i, x)| v | (u64::from(x & 0x7f) << (7 * i).min(63)))
+}
+
+/// The varint at `start..start+len` with `extra` redundant bytes: the same value in `len + extra` bytes.
+/// None when that would exceed the 10 bytes a 64-bit varint may have.
+fn pad_varint(b: &[u8], start: usize, len: usize, extra: usize) -> Option<Vec<u8>> {
+    if extra == 0 || len + extra > 10 {
+        return None;
+    }
+    let mut out = b[..start + len].to_vec();
+    out[start + len - 1] |= 0x80;
+    out.extend(std::iter::repeat_n(0x80u8, extra - 1));
+    out.push(0);
+    out.extend_from_slice(&b[start + len..]);
+    Some(out)
+}
+
+/// (start, len, what) of every varint inside a serialized command struct, found by walking the payload along the
+/// field types of the command (fields in definition order; int / enum = zigzag varint, text / bytes = varint length +
+/// content, bool / option tag / result tag = 1 byte, id = 1 + 32 bytes).
+fn payload_varints(m: &Machine, name: &Identifier, b: &[u8]) -> Option<Vec<(usize, usize, &'static str)>> {
+    fn walk(m: &Machine, t: &TypeKind, b: &[u8], pos: &mut usize, out: &mut Vec<(usize, usize, &'static str)>) -> Option<()> {
+        match t {
+            TypeKind::Unit => {}
+            TypeKind::Int | TypeKind::Enum(_) => {
+                let n = varint_len(b, *pos)?;
+                out.push((*pos, n, if matches!(t, TypeKind::Int) { "int" } else { "enum" }));
+                *pos += n;
+            }
+            TypeKind::String | TypeKind::Bytes => {
+                let n = varint_len(b, *pos)?;
+                out.push((*pos, n, if matches!(t, TypeKind::String) { "text length" } else { "bytes length" }));
+                *pos += n + usize::try_from(varint_val(b, *pos, n)).ok()?;
+            }
+            TypeKind::Bool => *pos += 1,
+            TypeKind::Id => *pos += 33,
+            TypeKind::Struct(n) => {
+                for f in &m.struct_defs.get(n)?.items {
+                    walk(m, &f.ty, b, pos, out)?;
+                }
+            }
+            TypeKind::Optional(i) => {
+                let tag = *b.get(*pos)?;
+                *pos += 1;
+                match tag {
+                    0 => {}
+                    1 => walk(m, i, b, pos, out)?,
+                    _ => return None,
+                }
+            }
+            TypeKind::Result(r) => {
+                let tag = *b.get(*pos)?;
+                *pos += 1;
+                match tag {
+                    0 => walk(m, &r.ok, b, pos, out)?,
+                    1 => walk(m, &r.err, b, pos, out)?,
+                    _ => return None,
+                }
+            }
+            TypeKind::Never => return None,
+        }
+        (*pos <= b.len()).then_some(())
+    }
+    let mut out = Vec::new();
+    let mut pos = 0;
+    walk(m, &TypeKind::Struct(name.clone()), b, &mut pos, &mut out)?;
+    (pos == b.len()).then_some(out)
+}
+
+/// The three length prefixes of a serialized `VmProtocolData` (command name, payload, signature), located from the
+/// end of the encoding (author id, then three length-prefixed byte strings). None if the bytes are not laid out so.
+fn wire_len_prefixes(bytes: &[u8]) -> Option<Vec<(usize, usize)>> {
+    let data: VmProtocolData<'_> = postcard::from_bytes(bytes).ok()?;
+    let lens = [data.kind.as_str().len(), data.serialized_fields.len(), data.signature.len()];
+    let vlen = |n: usize| {
+        let mut k = 1;
+        let mut n = n >> 7;
+        while n > 0 {
+            k += 1;
+            n >>= 7;
+        }
+        k
+    };
+    let mut end = bytes.len();
+    let mut out = Vec::new();
+    for n in lens.iter().rev() {
+        let start = end.checked_sub(n + vlen(*n))?;
+        let l = varint_len(bytes, start)?;
+        if l != vlen(*n) || usize::try_from(varint_val(bytes, start, l)).ok()? != *n {
+            return None;
+        }
+        out.push((start, l));
+        end = start;
+    }
+    out.reverse();
+    Some(out)
+}
+
+/// Every command that differs from `orig` only in how the payload's values are written: for each varint of the
+/// payload one redundant byte, plus 2 extra / the maximal padding (by `p`); the payload's length prefix in the wire
+/// encoding follows (re-encoded). Id, parent, priority, author, name, signature are untouched.
+fn payload_reencodings(m: &Machine, orig: &OwnedCmd, p: &MutParam) -> Vec<(OwnedCmd, bool, &'static str, String)> {
+    let Ok(data) = postcard::from_bytes::<VmProtocolData<'_>>(&orig.bytes) else { return Vec::new() };
+    let fields = data.serialized_fields;
+    let Some(spans) = payload_varints(m, &data.kind, fields) else { return Vec::new() };
+    let Ok(decoded) = m.deserialize_struct(data.kind.clone(), fields) else { return Vec::new() };
+    let mut out = Vec::new();
+    for (si, (start, len, what)) in spans.iter().enumerate() {
+        let max = 10 - len;
+        let second = if (usize::from(p.bit) + si) % 2 == 0 { 2 } else { max };
+        let mut extras = vec![1usize];
+        if second > 1 && second <= max {
+            extras.push(second);
+        }
+        for extra in extras {
+            let Some(x) = pad_varint(fields, *start, *len, extra) else { continue };
+            // for the record only (the bytes differ from the signed ones either way): does the VM read the same values?
+            let same = m.deserialize_struct(data.kind.clone(), &x).ok().as_ref() == Some(&decoded);
+            let mut c = orig.clone();
+            c.bytes = reencode(data.author_id, &data.kind, &x, data.signature);
+            if c != *orig {
+                out.push((c, same, *what, format!("{what} varint at payload offset {start} ({len} byte(s)) padded with {extra} redundant byte(s); decodes to the same values: {same}")));
+            }
+        }
+    }
+    out
 }
 
 // ---------------------------------------------------------------------------------------------
@@ -495,13 +699,14 @@ pub fn check_case(m: &Machine, case: &Case, info: &mut CaseInfo) -> CheckResult 
     rt::transfer(&mut c.client, &mut a.client, g, &mut sink, &mut bufs).map_err(|e| honest("C->A", e))?;
     for (i, s) in case.steps.iter().enumerate() {
         let d = if s.dev_c { &mut c } else { &mut a };
-        let name = match s.cmd {
-            0 => ident!("put"),
-            1 => ident!("set2"),
-            _ => ident!("two"),
+        let (name, args) = match s.cmd {
+            0 => (ident!("put"), vec![Value::Int(i64::from(s.k)), Value::Int(i64::from(s.v))]),
+            1 => (ident!("set2"), vec![Value::Int(i64::from(s.k)), Value::Int(i64::from(s.v))]),
+            2 => (ident!("two"), vec![Value::Int(i64::from(s.k)), Value::Int(i64::from(s.v))]),
+            _ => (ident!("note"), note_args(s)),
         };
         d.client
-            .action(g, &mut sink, act(name, vec![Value::Int(i64::from(s.k)), Value::Int(i64::from(s.v))]), &mut bufs, MemSpill::new)
+            .action(g, &mut sink, act(name, args), &mut bufs, MemSpill::new)
             .map_err(|e| honest(&format!("step {i} {s:?}"), e.to_string()))?;
         if s.sync_after {
             rt::transfer(&mut c.client, &mut a.client, g, &mut sink, &mut bufs).map_err(|e| honest("sync C->A", e))?;
@@ -528,10 +733,29 @@ pub fn check_case(m: &Machine, case: &Case, info: &mut CaseInfo) -> CheckResult 
         let before = observe(&mut b.client, g).map_err(|e| f("harness: cannot observe replica B", e))?;
         let others: Vec<Address> = wire[..i].iter().map(|w| Address { id: w.id, max_cut: MaxCut::new(w.max_cut()) }).collect();
         if !cmd.is_merge() {
+            if let Ok(d) = postcard::from_bytes::<VmProtocolData<'_>>(&cmd.bytes) {
+                info.label(format!("delivered:{}", d.kind));
+            }
+            // the single mutations named by the statement, then the byte-different encodings of the same payload values
+            let mut attempts: Vec<(OwnedCmd, &'static str, String)> = Vec::new();
             for (j, kind) in COVERED.iter().copied().enumerate() {
-                let covered = true;
                 let p = &case.params[(i + j) % case.params.len()];
-                let Some((mutated, what)) = mutate(cmd, kind, p, &others, &devices) else { continue };
+                if let Some((mutated, what)) = mutate(cmd, kind, p, &others, &devices) {
+                    attempts.push((mutated, what, format!("mutation {kind:?} ({what}) param {p:?}")));
+                }
+            }
+            let p = &case.params[i % case.params.len()];
+            let re = payload_reencodings(m, cmd, p);
+            if re.is_empty() {
+                info.label("no_payload_reencoding");
+            }
+            for (mutated, same, which, how) in re {
+                info.label(if same { "payload_reencoding:decodes_to_same_values" } else { "payload_reencoding:not_decoded_the_same" });
+                info.label(format!("padded:{which}"));
+                attempts.push((mutated, "payload encoding (padded varint)", how));
+            }
+            for (mutated, what, how) in attempts {
+                let covered = true;
                 let mut sink = RecSink::new();
                 let mut trx = b.client.transaction(g);
                 let bc = &mut b.client;
@@ -551,7 +775,7 @@ pub fn check_case(m: &Machine, case: &Case, info: &mut CaseInfo) -> CheckResult 
                 });
                 let after = observe(&mut b.client, g).map_err(|e| f("replica B unreadable after a rejected command", e))?;
                 let (committed, _) = sink.committed();
-                let ctx = || format!("command #{i} ({:?}, id {}) mutation {kind:?} ({what}) param {p:?}", cmd.priority, cmd.id);
+                let ctx = || format!("command #{i} ({:?}, id {}) {how}", cmd.priority, cmd.id);
                 match res {
                     Err((msg, loc)) => {
                         // a panic is not a rejection; state must still be unchanged
@@ -680,6 +904,7 @@ pub fn run(ctx: &Ctx) -> ! {
     let mut rep = Report::new(ctx, "exploration");
     rep.assume("signing policy modelled on aranya-model's ffi-policy.md (crypto/envelope/device/idam/perspective FFIs, MemStore key stores, DefaultEngine over a seeded RNG so cases replay); commands Init/AddDeviceKeys are self-signed with the key they carry, Put/Set2 with the author's registered key");
     rep.assume("mutations named by the statement (payload, command name, author, signature, id, parent id, any single wire bit) must be rejected; parent max_cut, priority, the policy field of a non-init command and appended trailing bytes are not named by the statement: what happens is recorded as labels only");
+    rep.assume("the payload is the byte string that was signed: a payload rewritten to other bytes that decode to the same field values (padded varints) is a changed payload and must be rejected; padding the length prefixes of the wire encoding around name / payload / signature leaves every signed item byte-identical, is not named by the statement and is recorded as a label only (uncovered:wire length prefix:*; the unchanged tree accepts it)");
     rep.assume("a rejected transaction is dropped (never committed), as a syncer does on error");
     rep.assume("merge commands carry no signature and are delivered unmodified; a forged merge id is probed once per case for the record (label observation:merge_with_forged_id:*) and never counted as a violation");
     let m = machine();
@@ -688,8 +913,10 @@ pub fn run(ctx: &Ctx) -> ! {
         "mutated_delivery",
         "honest history by two registered devices (1-8 actions of 1-2 commands, generated sync points, so linear runs, branches and merge commands), \
          captured as wire commands from A's storage and delivered one by one to a fresh replica B: first with each of 7 statement-covered single mutations \
-         (payload bit, command name, author id, signature bit, command id bit, parent id -> other stored command or bit flip, arbitrary wire bit) and 4 uncovered ones, each in its own \
-         transaction, then unmodified; oracle: mutated => add_commands Err and heads / stored ids / fact scan unchanged and no committed effects, unmodified => accepted, \
+         (payload bit, command name, author id, signature bit, command id bit, parent id -> other stored command or bit flip, arbitrary wire bit), with every byte-different \
+         encoding of the same payload values of the class padded varint (each int / enum / text-length / bytes-length varint of the payload, located by a schema walk, with 1 and with 2 or \
+         the maximal number of redundant continuation bytes; the payload's wire length prefix follows; id, parent, author, name, signature untouched) and 5 uncovered ones, each in its own \
+         transaction, then unmodified; commands: Init, AddDeviceKeys (bytes), Put/Set2 (two small ints), Note (int of 1..10 encoded bytes, text and bytes up to 299 bytes, option, enum, nested struct); oracle: mutated => add_commands Err and heads / stored ids / fact scan unchanged and no committed effects, unmodified => accepted, \
          B == A at the end; non-trivial = both devices authored commands after registration and >=20 covered mutations were rejected in the case",
         || case(8),
         n,
